@@ -123,10 +123,13 @@ class _Recorder(object):
 
     def m_open_fp(self, I, args, kwargs):
         self.log.append("open")
-        return BufV("outfile", is_file=True)
+        self.opened = args[0]
+        self.fp = BufV("outfile", is_file=True)
+        return self.fp
 
     def m_write(self, I, args, kwargs):
         self.log.append("write")
+        self.written_to = args[0]
         return NONE
 
 
@@ -134,9 +137,12 @@ def action_tabulate(chk, P):
     I = W.make_interp(P)
     log = []
 
+    recs = []
+
     def rfp(i, fv, a, k, n):
         log.append("build")
-        return PyObjV(_Recorder(log))
+        recs.append(_Recorder(log))
+        return PyObjV(recs[-1])
     I.hooks["atsim.potentials.config._configuration:Configuration.read_from_parser"] = rfp
     fi = P.func("atsim.potentials.tools.potable._actions", "action_tabulate")
     I.run(fi, [W.param("cp"), Const("out.txt")])
@@ -144,3 +150,8 @@ def action_tabulate(chk, P):
            expect=["build", "open", "write"], key="C17.A|build-before-open")
     chk.ob("C17.A", "after opening, the only action is tabulation.write(outfile)", log[2:] == ["write"], site=fi.site(), found=log,
            expect=["build", "open", "write"], key="C17.A|only-write")
+    r = recs[0] if recs else None
+    opened = getattr(r, "opened", None)
+    ok = isinstance(opened, Const) and opened.v == "out.txt" and getattr(r, "written_to", None) is getattr(r, "fp", 0)
+    chk.ob("C17.A", "the file opened is the requested output file and the tabulation is written to that file object", ok, site=fi.site(),
+           found=(opened, getattr(r, "written_to", None)), expect="open_fp(outfilename); write(<that file>)", key="C17.A|which-file")
